@@ -971,7 +971,16 @@ func (vc *VC) convertVal(st *State, v Val, rt types.Type, name string) Val {
 			if c, ok := constOf(v.T); ok {
 				return Val{Ty: rt, T: bvLit(c, to.w)}
 			}
-			return Val{Ty: rt, T: vc.define(name, Term{fmt.Sprintf("((_ int2bv %d) %s)", to.w, v.T.S), bvSort(to.w)})}
+			b := vc.nameBV(name, Term{fmt.Sprintf("((_ int2bv %d) %s)", to.w, v.T.S), bvSort(to.w)})
+			if !strings.Contains(v.T.S, "q_") && !strings.Contains(v.T.S, "p!") {
+				// bridge for the solvers: the bit-vector denotes x mod 2^w
+				vc.assert(eq(app(SInt, "bv2nat", b), app(SInt, "mod", v.T, bigLit(pow2(to.w)))))
+				if vc.bridged == nil {
+					vc.bridged = map[string]bool{}
+				}
+				vc.bridged[b.S] = true
+			}
+			return Val{Ty: rt, T: b}
 		}
 		if fbv && tbv {
 			switch {
